@@ -51,7 +51,7 @@ fn glue_safe(a: &str, b: &str) -> bool {
     let word = |t: &str| t.chars().next().map(|c| c.is_alphabetic() || c == '_').unwrap_or(false) || t.starts_with('\'');
     let number = |t: &str| t.chars().next().map(|c| c.is_ascii_digit()).unwrap_or(false);
     match (is_operator(a), is_operator(b)) {
-        (true, false) => word(b) || (number(b) && a != "." && a != "-"),
+        (true, false) => word(b) || (number(b) && a != "."),
         (false, true) => word(a) || (number(a) && b != "."),
         _ => false,
     }
